@@ -5,7 +5,8 @@ PATCH=$1; shift
 cd /repo || exit 2
 if [ -n "$(git status --porcelain --untracked-files=no)" ]; then echo "/repo is dirty"; exit 2; fi
 git apply "$PATCH" || { echo "patch does not apply"; exit 2; }
-trap 'git -C /repo checkout -- . ' EXIT
+# restore /repo and rebuild the harness from the restored tree, so that no binary built from a seeded tree is left behind
+trap 'git -C /repo checkout -- . ; (cd /verif/harness && cargo build --release >/dev/null 2>&1)' EXIT
 cd /verif
 for c in "$@"; do
   START=$(date +%s)
